@@ -364,6 +364,47 @@ fn w_failed_save_retry() -> bool {
     first.is_err() && second.is_err()
 }
 
+fn roundtrip(p: &pdf::primitive::Primitive) -> Result<pdf::primitive::Primitive, String> {
+    use pdf::parser::{parse, ParseFlags};
+    let mut buf = Vec::new();
+    p.serialize(&mut buf).map_err(|e| e.to_string())?;
+    parse(&buf, &pdf::object::NoResolve, ParseFlags::ANY).map_err(|e| format!("{} <- {:?}", e.to_string().chars().take(40).collect::<String>(), String::from_utf8_lossy(&buf)))
+}
+
+fn w_name_escape() -> bool {
+    use pdf::primitive::Primitive;
+    let mut bad = false;
+    for n in ["a b", "a#b", "a/b", "a(b", "x%y", "é"] {
+        let p = Primitive::Name(n.into());
+        let r = std::panic::catch_unwind(|| roundtrip(&p));
+        let ok = matches!(r, Ok(Ok(ref q)) if *q == p);
+        println!("name {:?} -> {:?}", n, r.map_err(|_| "panic"));
+        bad |= !ok;
+    }
+    // dictionary key
+    let mut d = pdf::primitive::Dictionary::new();
+    d.insert("a b", Primitive::Integer(1));
+    let p = Primitive::Dictionary(d);
+    let r = roundtrip(&p);
+    println!("dict key \"a b\" -> {:?}", r);
+    bad |= r != Ok(p);
+    bad
+}
+
+fn w_string_eol() -> bool {
+    use pdf::primitive::{Primitive, PdfString};
+    use pdf::parser::{parse, ParseFlags};
+    let raw_cr = parse(b"(a\rb)", &pdf::object::NoResolve, ParseFlags::ANY).map(|p| format!("{:?}", p));
+    let unknown = parse(b"(a\\qb)", &pdf::object::NoResolve, ParseFlags::ANY).map(|p| format!("{:?}", p));
+    let hexnul = parse(b"<41\x0042>", &pdf::object::NoResolve, ParseFlags::ANY).map(|p| format!("{:?}", p)).map_err(|e| e.to_string());
+    println!("(a<CR>b) -> {:?} (spec: a<LF>b); (a\\qb) -> {:?} (spec: aqb); <41 NUL 42> -> {:?} (spec: AB)", raw_cr, unknown, hexnul);
+    let p = Primitive::String(PdfString::new(b"a\rb"[..].into()));
+    let rt = roundtrip(&p);
+    println!("string with CR round trip -> {:?}", rt);
+    let v = |r: &Result<String, _>, want: &str| r.as_ref().map(|s: &String| !s.contains(want)).unwrap_or(true);
+    v(&raw_cr.map_err(|e| e.to_string()), "a\\x0ab") || v(&unknown.map_err(|e| e.to_string()), "\"aqb\"") || hexnul.map(|s| !s.contains("\"AB\"")).unwrap_or(true) || rt != Ok(p)
+}
+
 fn main() {
     let all: Vec<(&str, fn() -> bool)> = vec![
         ("lzw_predictor", w_lzw_predictor),
@@ -380,6 +421,8 @@ fn main() {
         ("save_prefix", w_save_prefix),
         ("update_compressed", w_update_compressed),
         ("failed_save_retry", w_failed_save_retry),
+        ("name_escape", w_name_escape),
+        ("string_eol", w_string_eol),
     ];
     let want: Vec<String> = std::env::args().skip(1).collect();
     for (n, f) in all {
